@@ -17,7 +17,7 @@ STUBS = ["DenovoMCMC(...).fit().burn() -> object whose posterior() is a Posterio
          "stub locus (format_haplotypes renders the integer haplotype), qual_of_prob / minimum_error_correction / natural_log_to_log10 constants"]
 ASSUMES = ["per-sample genotype probabilities symbolic >= 0 summing to one; threshold symbolic in [0,1]",
            "byte-keyed dictionaries (tobytes) operate on concrete haplotype arrays: the genotype lists are concrete per scenario, only the probabilities and the threshold are symbolic"]
-BOUNDS = {"quick": "4 scenarios: 1-2 samples, ploidy 2 and 4, 2 SNVs (4 possible haplotypes), <= 3 genotypes per sample; --report GP/AFP on and off",
+BOUNDS = {"quick": "6 scenarios: 1-2 samples, ploidy 2 and 4 (two mixed-ploidy pairs), 2 SNVs (4 possible haplotypes), <= 3 genotypes per sample; --report GP/AFP on and off",
           "thorough": "8 scenarios incl. 3 samples, mixed ploidy, reference absent from every genotype, a single homozygous-reference sample"}
 OUTSIDE = "the MCMC itself (C01/C14); more genotypes per sample than listed; decimal rendering"
 TASKS_PER_CHILD = 2
@@ -29,11 +29,13 @@ SCENARIOS = {
     "noref": [[[H01, H11], [H10, H11], [H01, H10]]],
     "homref": [[[H00, H00], [H00, H01]]],
     "mixed": [[[H00, H01], [H01, H01]], [[H01, H01, H10, H11], [H00, H01, H10, H10]]],
+    # a haplotype private to a diploid (high frequency, dosage <= 2) against one private to a tetraploid (dosage up to 3)
+    "mixed2": [[[H01, H01], [H00, H01]], [[H00, H10, H10, H10], [H00, H00, H10, H10]]],
     "three": [[[H00, H01], [H11, H11]], [[H10, H11], [H00, H10]], [[H01, H01], [H00, H11]]],
     "tetnoref": [[[H01, H01, H10, H11], [H01, H10, H10, H11], [H11, H11, H11, H11]]],
     "dupes": [[[H00, H01], [H00, H01], [H01, H01]]],
 }
-QUICK = ["dip2", "tet2", "noref", "homref"]
+QUICK = ["dip2", "tet2", "noref", "homref", "mixed", "mixed2"]
 
 
 def configs(tier):
